@@ -245,7 +245,8 @@ def check_history(case):
     prob.description = meta["description"]
     classes = set()
     resynced = False
-    extra = []
+    extra = [prob]          # every problem object created for this case is released at the end (also the first one,
+    #                         after `prob` has been rebound by a reopen / rewrite step)
     try:
         db = os.path.join(prob.working_dir, "c10.sqlite")
         with guard("store"):
@@ -361,10 +362,8 @@ def check_history(case):
                 classes.add("reopened-in-write-mode")
         compare_view("store", db, meta, model, "at the end")
     finally:
-        for q in extra:
+        for q in reversed(extra):
             dispose(q)
-        if prob not in extra:
-            dispose(prob)
     txt = json.dumps(case["ops"])
     if resynced:
         classes.add("resynced-different")
